@@ -18,7 +18,12 @@ def _stmt_start(s, i):
     """index of the first character of the statement containing position i (after the previous ; { } or label ':' )"""
     j = i
     while j > 0 and s[j - 1] not in ';{}': j -= 1
-    while s[j].isspace(): j += 1
+    while True:
+        while s[j].isspace(): j += 1
+        # a preprocessor line (`#define x (*x_p)` of a lowered C++ reference, `#undef`) between the previous statement and this one is
+        # not part of the statement: text inserted in front of the statement must not land on the directive's line
+        if s[j] == '#' and '\n' in s[j:i]: j = s.index('\n', j) + 1
+        else: break
     return j
 
 # --- exceptions ---------------------------------------------------------------------------------------------------
